@@ -39,6 +39,16 @@ def run_case(seed):
     pf = gen.gen_plotfile(rng, ndims=3, payload=rng.choice(['ints', 'random', 'special']),
                           max_blocks=2, nfields=(1, 5), nlevels=rng.choice([1, 2, 2, 3]))
     keys = c01.reader_keys(pf.fields)
+    # boxes whose values are all exactly zero (a field that vanishes in a region) above non-zero coarser data
+    r2 = random.Random(seed * 433 + 3)
+    nzero = 0
+    if r2.random() < 0.5:
+        for lev in pf.levels[1:] + pf.levels[:1]:
+            for d in lev.data:
+                if r2.random() < 0.4:
+                    d[..., r2.randrange(d.shape[-1])] = 0.0
+                    nzero += 1
+    count(f"boxes with an all-zero field={'yes' if nzero else 'no'}")
     path = core.scratch_dir(f"c10_{seed}")
     gen.write_plotfile(pf, path)
     lv_sx = [gen.level_to_sx(pf, lv) for lv in range(pf.nlevels)]
